@@ -43,7 +43,8 @@ CLAIMS = {
         text=("Theorems: the setter is Ok iff the range test holds, Err leaves the state untouched, Ok changes exactly target (ratio unless ramping, "
               "needed size for fixed-out); relative form is literally set_resample_ratio(orig*x); chunk-size control accepts exactly 1..=max on the "
               "sinc types, ChunkSizeNotAdjustable/SyncNotAdjustable elsewhere; in exact arithmetic the test is orig/max <= r <= orig*max with both "
-              "bounds included and non-positive values rejected. Oracle: real setters at the bounds, their f64 neighbours, NaN, infinities, "
+              "bounds included and non-positive values rejected; session level: after ANY history of calls, setters (accepted or rejected), chunk changes "
+              "and resets the ratio in force and the ramp target are accepted values, in Q inside [orig/max, orig*max]. Oracle: real setters at the bounds, their f64 neighbours, NaN, infinities, "
               "subnormals, all usize chunk sizes, decided against exact rationals (finding D9 inside a 2^-50 band)."),
         note=NOTE + "The f64 evaluation of new/orig near the bounds is not exact (known finding D9).",
         ref="3.12"),
@@ -96,7 +97,7 @@ CLAIMS = {
     "C04": dict(
         technique="Lean 4 proof (exact-arithmetic invariants over histories) + getter/count correspondence at every step",
         text=("Theorems over Q: fixed-output: in every state of every history input_frames_next < input_frames_max, output_frames_next <= max, and an Ok call "
-              "returns exactly (input_frames_next, output_frames_next); fixed-input: getter bounds for every in-range ratio/target pair, frames produced <= "
+              "returns exactly (input_frames_next, output_frames_next); fixed-input: getter bounds for every in-range ratio/target pair and, from the constructor, after ANY history (ramps, chunk changes, rejected calls, resets), frames produced <= "
               "output_frames_next at constant ratio, false under ratio schedules (D5 witness); FFT: bounds and exact counts for every valid history; "
               "process() returns what the core wrote. Tie: all six getters and the returned counts are compared with the model after every operation; "
               "sentinel-filled buffers show exactly `out` frames are written."),
